@@ -30,8 +30,9 @@ def programs(tier, rnd: random.Random):
         e = calls[0]
         for c in calls[1:]:
             e = f"({e} {rnd.choice(['+', '^', '|', '-'])} {c})"
-        pre = rnd.choice(["", "int32_t a = RsV; int32_t b = a++; ", "RxV++; ", "int32_t a = ({ int32_t q = RtV; q; }); "])
-        post = rnd.choice(["", " ReV = RtV;", " EA = RsV;"])
+        # (RvV / RwV: letters no call argument uses, so that no ISA letter occurs both as a single register and as a pair)
+        pre = rnd.choice(["", "int32_t a = RvV; int32_t b = a++; ", "RxV++; ", "int32_t a = ({ int32_t q = RwV; q; }); "])
+        post = rnd.choice(["", " ReV = RwV;", " EA = RvV;"])
         progs.append(f"{{ {pre}RddV = {e};{post} }}")
     progs += ["{ trap(0, 1); RdV = 1; }", "{ RdV = 1; trap(RsV, 2); }", "{ int32_t a = RsV; RdV = clz32(a); ReV = a; }", "{ int32_t a = RsV; int32_t b = clz32(a) + a; RdV = b; }",
               "{ RdV = conv_round(RsV, 2); }", "{ RdV = conv_round(RsV, 0); }", "{ RdV = clz32(RsV) + clz32(RtV); }", "{ RdV = clo32(RsV) + clo32(RtV); }",
